@@ -12,6 +12,15 @@ package main
 // The universe is chosen by the first step of a history; afterwards non-local next hops are added
 // to and removed from the entry between packets. C09.local (the fetch-twice probe) is evaluated in
 // every state, C09.out on every transmission.
+//
+// Round 10: the producer's own route comes and goes too. Universes WITHOUT L5 (the entry lists only
+// non-local faces, or does not exist) model a producer that has not registered yet; Add(L5,c1) /
+// Rem(L5) are steps of the history, next to the application's own attempts I(L1,probe) (plain, and
+// with a NextHopFaceId naming a non-local face) and clock steps of 100 ms / 400 ms / 5 s (the edge
+// of the 500 ms retransmission suppression and the PIT lifetime). C09.local is claimed in every
+// state in which the harness's own record of the entry lists L5: a fetch that FOLLOWS earlier
+// attempts made while the FIB was different must work like a first one. The complete product of
+// (FIB before x attempt x time distance x FIB change) at depth 1 is swept in refetch.go.
 
 import (
 	"fmt"
@@ -38,24 +47,32 @@ func (s *sys) addUniverses() {
 		// cost code per non-local face: 0 = absent, 1..3 = cost 0..2
 		for c2 := 0; c2 < 4; c2++ {
 			for c3 := 0; c3 < 4; c3++ {
-				set := []fwsim.Route{{Prefix: prefix, Face: fwsim.L5, Cost: 1}}
-				if c2 > 0 {
-					set = append(set, fwsim.Route{Prefix: prefix, Face: fwsim.N2, Cost: uint64(c2 - 1)})
-				}
-				if c3 > 0 {
-					set = append(set, fwsim.Route{Prefix: prefix, Face: fwsim.N3, Cost: uint64(c3 - 1)})
-				}
-				for _, order := range permutations(set) {
-					lab := ""
-					for _, r := range order {
-						lab += fmt.Sprintf(" %s:%d", faceLabel[r.Face], r.Cost)
+				for l5 := 1; l5 >= 0; l5-- {
+					// l5 == 0: the local producer has NOT registered yet (it does so later in the history, after
+					// the application's first attempts went nowhere); the entry then lists non-local faces only,
+					// or does not exist at all
+					set := []fwsim.Route{}
+					if l5 == 1 {
+						set = append(set, fwsim.Route{Prefix: prefix, Face: fwsim.L5, Cost: 1})
 					}
-					routes := order
-					if prefix == "/localhost/nfd" {
-						// the hostile registration one level up stays, as in the other configurations
-						routes = append([]fwsim.Route{{Prefix: "/localhost", Face: fwsim.N2, Cost: 1}}, order...)
+					if c2 > 0 {
+						set = append(set, fwsim.Route{Prefix: prefix, Face: fwsim.N2, Cost: uint64(c2 - 1)})
 					}
-					s.add(fmt.Sprintf("U(%s ->%s)", prefix, lab), opDef{u: &uOp{prefix: prefix, routes: routes}})
+					if c3 > 0 {
+						set = append(set, fwsim.Route{Prefix: prefix, Face: fwsim.N3, Cost: uint64(c3 - 1)})
+					}
+					for _, order := range permutations(set) {
+						lab := ""
+						for _, r := range order {
+							lab += fmt.Sprintf(" %s:%d", faceLabel[r.Face], r.Cost)
+						}
+						routes := order
+						if prefix == "/localhost/nfd" {
+							// the hostile registration one level up stays, as in the other configurations
+							routes = append([]fwsim.Route{{Prefix: "/localhost", Face: fwsim.N2, Cost: 1}}, order...)
+						}
+						s.add(fmt.Sprintf("U(%s ->%s)", prefix, lab), opDef{u: &uOp{prefix: prefix, routes: routes}})
+					}
 				}
 			}
 		}
@@ -64,4 +81,7 @@ func (s *sys) addUniverses() {
 		s.add(fmt.Sprintf("Add(%s,c0)", faceLabel[f]), opDef{f: &fOp{add: true, face: f, cost: 0}})
 		s.add(fmt.Sprintf("Rem(%s)", faceLabel[f]), opDef{f: &fOp{face: f}})
 	}
+	// the local producer registers (again) / unregisters between the application's attempts
+	s.add("Add(L5,c1)", opDef{f: &fOp{add: true, face: fwsim.L5, cost: 1}})
+	s.add("Rem(L5)", opDef{f: &fOp{face: fwsim.L5}})
 }
